@@ -191,12 +191,16 @@ def run(ctx):
             pw = "pw" if "AES" in nm else None
             # Deflate64 has no output limit of its own (py7zr feeds it piecewise): the member that follows an
             # incompressible head is made large enough for a one-shot inflate of the rest to cross the budget
-            sz = max(size, 448 << 20) if nm == "Deflate64-head" else (1 << 30) if nm.endswith("-skip") else size
+            # the highly compressible members of the fast codecs are 1 GiB in the quick tier too: a decoder that inflates
+            # "the rest" in one call stays under the budget at 256 MiB and does not at 1 GiB
+            big = nm.endswith("-skip") or (tex == "zeros" and nm in ("Deflate", "ZStandard", "LZMA2", "Deflate64"))
+            sz = max(size, 448 << 20) if nm == "Deflate64-head" else (1 << 30) if big else size
             wjobs.append((os.path.join(tmp, "a%d.7z" % i), f, pw, sz, tex, "middle" if nm.endswith("-skip") else ["first", "last", "middle"][i % 3]))
         wres = sandbox.pmap(_write_job, wjobs, workers=8, timeout=900 if ctx.thorough else 300, mem=None)
         ejobs, emeta = [], []
         for (nm, f, tex), wj, (st, val) in zip(fam, wjobs, wres):
-            key = (nm, tex, size, "write")
+            size_w = wj[3]
+            key = (nm, tex, size_w, "write")
             ctx.case(key=key, nontrivial=True, sample={"chain": nm, "texture": tex, "size": size, "phase": "write", "result": str(val)[:80] if st != "ok" else {"base": val[0], "peak": val[1], "archive": val[2]}})
             if st != "ok":
                 ctx.fail("C20:write_failed:" + nm, "writing a %d-byte member failed: %s %s" % (size, st, str(val)[:200]), {"chain": nm, "texture": tex, "size": size})
@@ -204,7 +208,7 @@ def run(ctx):
             base, peak, arcsize = val
             ctx.count("write_peak_above_base_mib", nm, peak - base)
             if peak - base > BUDGET_MIB:
-                ctx.fail("C20:write_rss:" + nm.split("-")[0] + ":" + tex, "writing one %d MiB %s member through %s peaked %d MiB above the interpreter baseline" % (size >> 20, tex, nm, peak - base),
+                ctx.fail("C20:write_rss:" + nm.split("-")[0] + ":" + tex, "writing one %d MiB %s member through %s peaked %d MiB above the interpreter baseline" % (size_w >> 20, tex, nm, peak - base),
                          {"chain": nm, "texture": tex, "size": size, "peak_mib": peak, "base_mib": base})
             hows = ["factory", "testzip"] if not ctx.thorough else ["factory", "testzip", "path"]
             if nm.endswith("-skip"):
@@ -213,17 +217,17 @@ def run(ctx):
                 hows = hows + ["targets-after"]
             for how in hows:
                 ejobs.append((wj[0], wj[2], how))
-                emeta.append((nm, tex, how))
+                emeta.append((nm, tex, how, wj[3]))
         eres = sandbox.pmap(_extract_job, ejobs, workers=8, timeout=900 if ctx.thorough else 300, mem=None)
-        for (nm, tex, how), (st, val) in zip(emeta, eres):
-            ctx.case(key=(nm, tex, size, how), nontrivial=True)
+        for (nm, tex, how, size_x), (st, val) in zip(emeta, eres):
+            ctx.case(key=(nm, tex, size_x, how), nontrivial=True)
             if st != "ok":
                 ctx.fail("C20:extract_failed:" + nm, "extracting a %d-byte member failed: %s %s" % (size, st, str(val)[:200]), {"chain": nm, "how": how})
                 continue
             base, peak, _ = val
             ctx.count("extract_peak_above_base_mib", nm + "/" + how, peak - base)
             if peak - base > BUDGET_MIB:
-                ctx.fail("C20:extract_rss:" + nm.split("-")[0] + ":" + tex, "extracting one %d MiB %s member (%s) through %s peaked %d MiB above the interpreter baseline" % (size >> 20, tex, how, nm, peak - base),
+                ctx.fail("C20:extract_rss:" + nm.split("-")[0] + ":" + tex, "extracting one %d MiB %s member (%s) through %s peaked %d MiB above the interpreter baseline" % (size_x >> 20, tex, how, nm, peak - base),
                          {"chain": nm, "texture": tex, "size": size, "how": how, "peak_mib": peak, "base_mib": base})
     finally:
         shutil.rmtree(tmp, ignore_errors=True)
